@@ -10,6 +10,8 @@
 import SkyllhModel.Model.Stat
 import SkyllhModel.Generated.C12
 import SkyllhModel.Proofs.Stat
+import SkyllhModel.Model.PolyFitR7
+import SkyllhModel.Proofs.PolyFitR7
 import SkyllhModel.Proofs.RealScalar
 import Mathlib.Tactic
 import Mathlib.Analysis.SpecialFunctions.Log.Deriv
@@ -1433,3 +1435,429 @@ theorem c12_old_call_rejected :
   decide +kernel
 
 end bind
+
+/-! ## 9. Round 7 — `np.polyfit` inside the model: `polynomial_fit` as a function of the data -/
+
+section polyfit_r7
+open C12
+
+/-- the `np.polyfit` calls of `polynomial_fit` in the current source (arguments bound to numpy's parameter
+names, so positional and keyword forms are the same): each passes a sample `x`, `y`, a degree, **weights
+`w`** (so the minimised quantity is `Σ (wᵢ(yᵢ − P(xᵢ)))²`, what `C12.wcost` is) and **`cov=True`** (which is
+why fewer than `deg + 2` points raise: `PfErr.tooFewForCov`) -/
+theorem c12_polyfit_calls_for_current_source :
+    Gen.C12.polyfitCalls ≠ [] ∧
+    (∀ c ∈ Gen.C12.polyfitCalls,
+      (∀ k ∈ ["x", "y", "deg", "w", "cov"], k ∈ c.map Prod.fst) ∧ ("cov", "True") ∈ c) ∧
+    Gen.C12.polynomialFitParams.length = 5 := by
+  decide +kernel
+
+theorem C12.polyfitR7_one {xs ys ws c : List ℝ} (h : polyfitR7 (1 : ℤ) xs ys ws = .ok c) :
+    lsq1 (pfPoints xs ys ws) = .ok c ∧ 2 < xs.length ∧ xs.length = ys.length ∧ ws.length = ys.length := by
+  unfold polyfitR7 at h
+  simp only [show ¬ ((1 : ℤ) < 0) by norm_num, if_false, show ¬ ((1 : ℤ) = 0) by norm_num, if_true] at h
+  split_ifs at h with h2 h3 h4 h5
+  · cases hl : lsq1 (pfPoints xs ys ws) with
+    | error e => rw [hl] at h; simp at h
+    | ok c' => rw [hl] at h; simp at h
+  · cases hl : lsq1 (pfPoints xs ys ws) with
+    | error e => rw [hl] at h; simp at h
+    | ok c' =>
+      rw [hl] at h
+      simp only at h
+      injection h with h
+      subst h
+      push Not at h3 h4 h5
+      refine ⟨rfl, ?_, h3, h4⟩
+      omega
+
+theorem C12.polyfitR7_two {xs ys ws c : List ℝ} (h : polyfitR7 (2 : ℤ) xs ys ws = .ok c) :
+    lsq2 (pfPoints xs ys ws) = .ok c ∧ 3 < xs.length ∧ xs.length = ys.length ∧ ws.length = ys.length := by
+  unfold polyfitR7 at h
+  simp only [show ¬ ((2 : ℤ) < 0) by norm_num, if_false, show ¬ ((2 : ℤ) = 0) by norm_num,
+    show ¬ ((2 : ℤ) = 1) by norm_num, if_true] at h
+  split_ifs at h with h2 h3 h4 h5
+  · cases hl : lsq2 (pfPoints xs ys ws) with
+    | error e => rw [hl] at h; simp at h
+    | ok c' => rw [hl] at h; simp at h
+  · cases hl : lsq2 (pfPoints xs ys ws) with
+    | error e => rw [hl] at h; simp at h
+    | ok c' =>
+      rw [hl] at h
+      simp only at h
+      injection h with h
+      subst h
+      push Not at h3 h4 h5
+      refine ⟨rfl, ?_, h3, h4⟩
+      omega
+
+/-- **`np.polyfit` returns `deg + 1` coefficients** (this was an assumption of `c12_poly_fit_cases`: the
+`indexError` branch of `polyFit` cannot be reached from the data), needs at least `deg + 2` points of
+equal-length arguments (`cov=True`), and its result **minimises the weighted sum of squared residuals**
+among all polynomials of that degree — for the two degrees `polynomial_fit` accepts -/
+theorem c12_lsq_minimises (xs ys ws c : List ℝ) :
+    (polyfitR7 (1 : ℤ) xs ys ws = .ok c →
+      2 < xs.length ∧ xs.length = ys.length ∧ ws.length = ys.length ∧
+      ∃ a b, c = [a, b] ∧ ∀ a' b' : ℝ,
+        wcost (polyEval [a, b]) (pfPoints xs ys ws) ≤ wcost (polyEval [a', b']) (pfPoints xs ys ws)) ∧
+    (polyfitR7 (2 : ℤ) xs ys ws = .ok c →
+      3 < xs.length ∧ xs.length = ys.length ∧ ws.length = ys.length ∧
+      ∃ a b d, c = [a, b, d] ∧ ∀ a' b' d' : ℝ,
+        wcost (polyEval [a, b, d]) (pfPoints xs ys ws) ≤ wcost (polyEval [a', b', d']) (pfPoints xs ys ws)) := by
+  have e1 : ∀ a b : ℝ, polyEval [a, b] = fun x => a * x + b := by
+    intro a b; funext x; simp [polyEval]
+  have e2 : ∀ a b d : ℝ, polyEval [a, b, d] = fun x => a * (x * x) + b * x + d := by
+    intro a b d; funext x; simp only [polyEval, List.foldl_cons, List.foldl_nil]; ring
+  constructor
+  · intro h
+    obtain ⟨hl, hn, hxy, hwy⟩ := C12.polyfitR7_one h
+    obtain ⟨a, b, rfl⟩ := lsq1_length hl
+    refine ⟨hn, hxy, hwy, a, b, rfl, fun a' b' => ?_⟩
+    rw [e1, e1]; exact lsq1_min hl a' b'
+  · intro h
+    obtain ⟨hl, hn, hxy, hwy⟩ := C12.polyfitR7_two h
+    obtain ⟨a, b, d, rfl⟩ := lsq2_length hl
+    refine ⟨hn, hxy, hwy, a, b, d, rfl, fun a' b' d' => ?_⟩
+    rw [e2, e2]; exact lsq2_min hl a' b' d'
+
+/-- non-vacuity: three points on the line `y = x` with unit weights are fitted by `[1, 0]` -/
+example : polyfitR7 (1 : ℤ) [(0 : ℝ), 1, 2] [0, 1, 2] [1, 1, 1] = .ok [1, 0] := by
+  norm_num [polyfitR7, lsq1, pfPoints, momS, momT, pfSum, sumF, det2, polyIsZero]
+
+/-- the argument checks come in numpy's order, and too few points raise only because of `cov=True` -/
+theorem c12_polyfit_argument_checks (deg : ℤ) (xs ys ws : List ℝ) :
+    (deg < 0 → polyfitR7 deg xs ys ws = .error .degNegative) ∧
+    (0 ≤ deg → xs = [] → polyfitR7 deg xs ys ws = .error .xEmpty) ∧
+    (0 ≤ deg → xs ≠ [] → xs.length ≠ ys.length → polyfitR7 deg xs ys ws = .error .xyLen) ∧
+    (0 ≤ deg → xs ≠ [] → xs.length = ys.length → ws.length ≠ ys.length →
+      polyfitR7 deg xs ys ws = .error .wyLen) := by
+  refine ⟨?_, ?_, ?_, ?_⟩
+  · intro h; simp [polyfitR7, h]
+  · intro h hx; simp [polyfitR7, not_lt.mpr h, hx]
+  · intro h hx hxy
+    have : xs.isEmpty = false := by cases xs <;> simp_all
+    simp [polyfitR7, not_lt.mpr h, this, hxy]
+  · intro h hx hxy hwy
+    have : xs.isEmpty = false := by cases xs <;> simp_all
+    simp [polyfitR7, not_lt.mpr h, this, hxy, hwy]
+
+theorem C12.liftPoly_ok {α : Type} {r : Except PolyErr α} {v : α} (h : liftPoly r = .ok v) : r = .ok v := by
+  cases r with
+  | error e => simp [liftPoly] at h
+  | ok w => simp only [liftPoly] at h; injection h with h; rw [h]
+
+/-- the straight-line branch of `polyFit`, whatever `fit` is elsewhere -/
+theorem C12.polyFit_line (a1 b1 pthr : ℝ) :
+    polyFit (fun _ => [a1, b1]) 1 pthr
+      = (if a1 = 0 then .error .notFinite else .ok (polyInvert1 a1 b1 pthr, 1)) := by
+  by_cases ha1 : a1 = 0
+  · simp [polyFit, polySwitch, ha1, (C12.polyIsZero_iff 0).mpr rfl]
+  · simp [polyFit, polySwitch, ha1, C12.polyIsZero_false ha1]
+
+/-- **`polynomial_fit` from the data** (both `np.polyfit` calls inside the model): whatever it returns for
+degree 1 or 2 is a signal strength `x` at which a *weighted-least-squares* curve of the sample — the fit of
+the degree `d ≤ deg` finally used — takes the value `p_thr`.  With `c12_lsq_minimises` that curve has the
+least `Σ (wᵢ(yᵢ − P(xᵢ)))²` among all polynomials of degree `d`; no hypothesis on the data is needed:
+everything that can go wrong is an explicit error outcome of `polynomialFitData`. -/
+theorem c12_polynomial_fit_from_data (deg : ℤ) (xs ys ws : List ℝ) (pthr x : ℝ) (d : ℕ)
+    (hdeg : deg = 1 ∨ deg = 2)
+    (h : polynomialFitData (id : ℝ → ℝ) deg xs ys ws pthr = .ok (x, d)) :
+    (d = 1 ∨ d = 2) ∧ (d : ℤ) ≤ deg ∧
+    ∃ c, polyfitR7 (d : ℤ) xs ys ws = .ok c ∧ c.length = d + 1 ∧ polyEval c x = pthr := by
+  unfold polynomialFitData at h
+  simp only [List.map_id] at h
+  have line : ∀ p1 : List ℝ, polyfitR7 (1 : ℤ) xs ys ws = .ok p1 →
+      liftPoly (polyFit (fun _ => p1) 1 pthr) = .ok (x, d) →
+      d = 1 ∧ ∃ c, polyfitR7 (1 : ℤ) xs ys ws = .ok c ∧ c.length = 2 ∧ polyEval c x = pthr := by
+    intro p1 hq hl
+    obtain ⟨a1, b1, rfl⟩ := lsq1_length (C12.polyfitR7_one hq).1
+    have hl := C12.liftPoly_ok hl
+    rw [C12.polyFit_line] at hl
+    by_cases ha1 : a1 = 0
+    · simp [ha1] at hl
+    · simp only [ha1, if_false] at hl
+      injection hl with hl; injection hl with hx hd
+      refine ⟨hd.symm, [a1, b1], hq, rfl, ?_⟩
+      rw [← hx]; exact c12_poly_root_deg1 a1 b1 pthr ha1
+  cases hp : polyfitR7 deg xs ys ws with
+  | error e => rw [hp] at h; simp at h
+  | ok params =>
+    rw [hp] at h
+    simp only at h
+    by_cases hsw : polySwitch deg.toNat params pthr = true
+    · simp only [hsw, if_true] at h
+      cases hq : polyfitR7 (1 : ℤ) xs ys ws with
+      | error e => rw [hq] at h; simp at h
+      | ok p1 =>
+        rw [hq] at h
+        simp only at h
+        obtain ⟨hd, c, hc, hlen, hroot⟩ := line p1 hq h
+        subst hd
+        refine ⟨Or.inl rfl, ?_, c, by simpa using hc, hlen, hroot⟩
+        rcases hdeg with rfl | rfl <;> norm_num
+    · simp only [hsw] at h
+      rcases hdeg with rfl | rfl
+      · obtain ⟨hd, c, hc, hlen, hroot⟩ := line params hp (by simpa using h)
+        subst hd
+        exact ⟨Or.inl rfl, by norm_num, c, by simpa using hc, hlen, hroot⟩
+      · obtain ⟨a, b, c, rfl⟩ := lsq2_length (C12.polyfitR7_two hp).1
+        have hl := C12.liftPoly_ok h
+        have hsw' : polySwitch 2 [a, b, c] pthr = false := by simpa using hsw
+        have hD : ¬ polyDisc a b c pthr < 0 := by
+          intro hc
+          simp [polySwitch, hc] at hsw'
+        by_cases ha : a = 0
+        · subst ha
+          simp [polyFit, hsw', (C12.polyIsZero_iff 0).mpr rfl] at hl
+        · simp [polyFit, hsw', C12.polyIsZero_false ha] at hl
+          obtain ⟨hx, hd⟩ := hl
+          subst hd
+          refine ⟨Or.inr rfl, by norm_num, [a, b, c], by simpa using hp, rfl, ?_⟩
+          rw [← hx]; exact c12_poly_root_deg2 a b c pthr ha (not_lt.mp hD)
+
+/-- non-vacuity: a concave sample, degree 2, `p_thr = 3/4`: the parabola `−x²/4 + x` is the exact fit and
+the returned strength is its first crossing `x = 1` -/
+example : polyfitR7 (2 : ℤ) [(0 : ℝ), 1, 2, 3] [0, 3/4, 1, 3/4] [1, 1, 1, 1] = .ok [-1/4, 1, 0] := by
+  norm_num [polyfitR7, lsq2, pfPoints, momS, momT, pfSum, sumF, det3, polyIsZero]
+
+/-- `polynomialFitData` is `polyFit` on the two least-squares fits whenever both exist (ties the new
+function to the one the earlier theorems are about) -/
+theorem c12_polynomial_fit_data_eq_polyFit (deg : ℕ) (xs ys ws pd p1 : List ℝ) (pthr : ℝ)
+    (hd : polyfitR7 (deg : ℤ) xs ys ws = .ok pd) (h1 : polyfitR7 (1 : ℤ) xs ys ws = .ok p1) :
+    polynomialFitData (id : ℝ → ℝ) (deg : ℤ) xs ys ws pthr
+      = liftPoly (polyFit (fun k => if k = 1 then p1 else pd) deg pthr) := by
+  unfold polynomialFitData
+  simp only [List.map_id, hd, h1, Int.toNat_natCast]
+  by_cases hdeg1 : deg = 1
+  · subst hdeg1
+    have : pd = p1 := by
+      have := hd.symm.trans h1
+      injection this
+    subst this
+    have hs : polySwitch 1 pd pthr = false := by simp [polySwitch]
+    simp [polyFit, hs]
+  · by_cases hsw : polySwitch deg pd pthr = true
+    · simp [polyFit, hsw, hdeg1]
+    · simp only [hsw]
+      simp [polyFit, hsw, hdeg1]
+
+end polyfit_r7
+
+section polyfit_r7_rank
+open C12
+
+theorem C12.mom_single (x0 : ℝ) (pts : List (ℝ × ℝ × ℝ)) (h : ∀ p ∈ pts, p.2.2 = 0 ∨ p.1 = x0) :
+    (momS pts).2.1 = x0 * (momS pts).1 ∧ (momS pts).2.2.1 = x0 * x0 * (momS pts).1 := by
+  induction pts with
+  | nil => simp [momS, pfSum, sumF]
+  | cons p t ih =>
+    have ht := ih (fun q hq => h q (List.mem_cons_of_mem _ hq))
+    simp only [momS, pfSum, List.map_cons, sumF] at ht ⊢
+    rcases h p List.mem_cons_self with hw | hx
+    · rw [hw]; exact ⟨by linear_combination ht.1, by linear_combination ht.2⟩
+    · rw [hx]; exact ⟨by linear_combination ht.1, by linear_combination ht.2⟩
+
+/-- a sample whose points of non-zero weight all share one abscissa has no unique least-squares line: the
+model reports `singular` (numpy: `RankWarning`, then `LinAlgError` or meaningless numbers — the class
+`all-x-equal` of the harness, where nothing is compared) -/
+theorem c12_lsq1_singular_of_single_abscissa (x0 : ℝ) (pts : List (ℝ × ℝ × ℝ))
+    (h : ∀ p ∈ pts, p.2.2 = 0 ∨ p.1 = x0) : lsq1 pts = .error .singular := by
+  obtain ⟨h1, h2⟩ := C12.mom_single x0 pts h
+  unfold lsq1
+  generalize momS pts = S at h1 h2 ⊢
+  generalize momT pts = T
+  obtain ⟨s0, s1, s2, s3, s4⟩ := S
+  obtain ⟨t0, t1, t2⟩ := T
+  simp only at h1 h2 ⊢
+  have : det2 s2 s1 s1 s0 = 0 := by unfold det2; rw [h1, h2]; ring
+  simp [this, (C12.polyIsZero_iff 0).mpr rfl]
+
+example : lsq1 [((2 : ℝ), 0.1, 1), (2, 0.5, 3), (7, 0.9, 0)] = .error .singular :=
+  c12_lsq1_singular_of_single_abscissa 2 _ (by simp)
+
+end polyfit_r7_rank
+
+section polyfit_r7_defined
+open C12
+
+theorem C12.pfSum_ge_mem (f : ℝ × ℝ × ℝ → ℝ) (h : ∀ p, 0 ≤ f p) (pts : List (ℝ × ℝ × ℝ)) (q : ℝ × ℝ × ℝ)
+    (hq : q ∈ pts) : f q ≤ pfSum f pts := by
+  induction pts with
+  | nil => simp at hq
+  | cons p t ih =>
+    have ht := pfSum_nonneg f h t
+    simp only [pfSum, List.map_cons, sumF] at ih ht ⊢
+    rcases List.mem_cons.mp hq with rfl | hq'
+    · linarith
+    · have := ih hq'; have := h p; linarith
+
+theorem C12.quad_expand (t : ℝ) (pts : List (ℝ × ℝ × ℝ)) :
+    pfSum (fun p => p.2.2 * p.2.2 * ((p.1 - t) * (p.1 - t))) pts
+      = (momS pts).2.2.1 - 2 * t * (momS pts).2.1 + t * t * (momS pts).1 := by
+  induction pts with
+  | nil => simp [momS, pfSum, sumF]
+  | cons p t' ih =>
+    simp only [momS, pfSum, List.map_cons, sumF] at ih ⊢
+    linear_combination ih
+
+/-- the normal-equation determinant of the line fit is positive as soon as two sample points of non-zero
+weight have different abscissae (Cauchy–Schwarz, strict) -/
+theorem C12.det2_pos (pts : List (ℝ × ℝ × ℝ)) (p q : ℝ × ℝ × ℝ) (hp : p ∈ pts) (hq : q ∈ pts)
+    (hwp : p.2.2 ≠ 0) (hwq : q.2.2 ≠ 0) (hx : p.1 ≠ q.1) :
+    0 < det2 (momS pts).2.2.1 (momS pts).2.1 (momS pts).2.1 (momS pts).1 := by
+  have hS0 : 0 < (momS pts).1 := by
+    have := C12.pfSum_ge_mem (fun p => p.2.2 * p.2.2) (fun _ => mul_self_nonneg _) pts p hp
+    have hw : 0 < p.2.2 * p.2.2 := mul_self_pos.mpr hwp
+    simp only [momS]; linarith
+  have hpos : ∀ t : ℝ, 0 < (momS pts).2.2.1 - 2 * t * (momS pts).2.1 + t * t * (momS pts).1 := by
+    intro t
+    rw [← C12.quad_expand t pts]
+    have nn : ∀ r : ℝ × ℝ × ℝ, 0 ≤ r.2.2 * r.2.2 * ((r.1 - t) * (r.1 - t)) :=
+      fun r => mul_nonneg (mul_self_nonneg _) (mul_self_nonneg _)
+    by_cases ht : p.1 = t
+    · have hqt : q.1 - t ≠ 0 := by rw [← ht]; exact sub_ne_zero.mpr (Ne.symm hx)
+      have := C12.pfSum_ge_mem _ nn pts q hq
+      have : 0 < q.2.2 * q.2.2 * ((q.1 - t) * (q.1 - t)) := mul_pos (mul_self_pos.mpr hwq) (mul_self_pos.mpr hqt)
+      linarith
+    · have hpt : p.1 - t ≠ 0 := sub_ne_zero.mpr ht
+      have := C12.pfSum_ge_mem _ nn pts p hp
+      have : 0 < p.2.2 * p.2.2 * ((p.1 - t) * (p.1 - t)) := mul_pos (mul_self_pos.mpr hwp) (mul_self_pos.mpr hpt)
+      linarith
+  have h := hpos ((momS pts).2.1 / (momS pts).1)
+  unfold det2
+  have h2 : ((momS pts).2.2.1 - 2 * ((momS pts).2.1 / (momS pts).1) * (momS pts).2.1
+      + (momS pts).2.1 / (momS pts).1 * ((momS pts).2.1 / (momS pts).1) * (momS pts).1) * (momS pts).1
+      = (momS pts).2.2.1 * (momS pts).1 - (momS pts).2.1 * (momS pts).2.1 := by
+    field_simp; ring
+  rw [← h2]; exact mul_pos h hS0
+
+/-- **when the straight-line fit exists**: two sample points of non-zero weight at different signal
+strengths are enough — then `lsq1` returns a line (and `c12_lsq_minimises` says it is the optimum); together
+with `c12_lsq1_singular_of_single_abscissa` this characterises the `singular` outcome of the line fit -/
+theorem c12_lsq1_defined (pts : List (ℝ × ℝ × ℝ)) (p q : ℝ × ℝ × ℝ) (hp : p ∈ pts) (hq : q ∈ pts)
+    (hwp : p.2.2 ≠ 0) (hwq : q.2.2 ≠ 0) (hx : p.1 ≠ q.1) : ∃ a b, lsq1 pts = .ok [a, b] := by
+  have hd := C12.det2_pos pts p q hp hq hwp hwq hx
+  unfold lsq1
+  generalize momS pts = S at hd ⊢
+  generalize momT pts = T
+  obtain ⟨s0, s1, s2, s3, s4⟩ := S
+  obtain ⟨t0, t1, t2⟩ := T
+  simp only at hd ⊢
+  rw [if_neg (fun hc => ne_of_gt hd ((polyIsZero_iff' _).mp hc))]
+  exact ⟨_, _, rfl⟩
+
+example : ∃ a b, lsq1 [((0 : ℝ), 0.1, 2), (1, 0.4, 3), (1, 0.5, 0)] = .ok [a, b] :=
+  c12_lsq1_defined _ (0, 0.1, 2) (1, 0.4, 3) (by simp) (by simp) (by norm_num) (by norm_num) (by norm_num)
+
+/-- hence the first step of `polynomial_fit` for `deg = 1` (and its fall-back fit for `deg = 2`) **can be
+computed** for every sample of at least three points of equal-length arguments among which two points
+of non-zero weight lie at different signal strengths — every sample the sensitivity estimation produces -/
+theorem c12_polyfit_line_defined (xs ys ws : List ℝ) (hxy : xs.length = ys.length) (hwy : ws.length = ys.length)
+    (hn : 2 < xs.length) (p q : ℝ × ℝ × ℝ) (hp : p ∈ pfPoints xs ys ws) (hq : q ∈ pfPoints xs ys ws)
+    (hwp : p.2.2 ≠ 0) (hwq : q.2.2 ≠ 0) (hx : p.1 ≠ q.1) :
+    ∃ a b, polyfitR7 (1 : ℤ) xs ys ws = .ok [a, b] := by
+  obtain ⟨a, b, hl⟩ := c12_lsq1_defined _ p q hp hq hwp hwq hx
+  refine ⟨a, b, ?_⟩
+  have he : xs.isEmpty = false := by
+    cases xs with
+    | nil => simp at hn
+    | cons _ _ => rfl
+  have hn' : 2 < ys.length := hxy ▸ hn
+  simp [polyfitR7, he, hxy, hwy, hl, hn']
+
+example : ∃ a b, polyfitR7 (1 : ℤ) [(0 : ℝ), 1, 2] [0.1, 0.4, 0.5] [2, 3, 1] = .ok [a, b] :=
+  c12_polyfit_line_defined _ _ _ rfl rfl (by simp) (0, 0.1, 2) (1, 0.4, 3) (by simp [pfPoints]) (by simp [pfPoints])
+    (by norm_num) (by norm_num) (by norm_num)
+
+end polyfit_r7_defined
+
+section polyfit_r7_parabola
+open C12
+
+theorem C12.quad_form (u0 u1 u2 : ℝ) (pts : List (ℝ × ℝ × ℝ)) :
+    pfSum (fun p => p.2.2 * p.2.2 * ((u0 + u1 * p.1 + u2 * (p.1 * p.1)) * (u0 + u1 * p.1 + u2 * (p.1 * p.1)))) pts
+      = u0 * u0 * (momS pts).1 + 2 * u0 * u1 * (momS pts).2.1 + (u1 * u1 + 2 * u0 * u2) * (momS pts).2.2.1
+        + 2 * u1 * u2 * (momS pts).2.2.2.1 + u2 * u2 * (momS pts).2.2.2.2 := by
+  induction pts with
+  | nil => simp [momS, pfSum, sumF]
+  | cons p t ih =>
+    simp only [momS, pfSum, List.map_cons, sumF] at ih ⊢
+    linear_combination ih
+
+/-- a quadratic with non-zero leading coefficient does not vanish at three distinct points -/
+theorem C12.quad_three_roots (u0 u1 u2 x1 x2 x3 : ℝ) (h12 : x1 ≠ x2) (h13 : x1 ≠ x3) (h23 : x2 ≠ x3)
+    (h1 : u0 + u1 * x1 + u2 * (x1 * x1) = 0) (h2 : u0 + u1 * x2 + u2 * (x2 * x2) = 0)
+    (h3 : u0 + u1 * x3 + u2 * (x3 * x3) = 0) : u2 = 0 := by
+  have e12 : (x1 - x2) * (u1 + u2 * (x1 + x2)) = 0 := by linear_combination h1 - h2
+  have e13 : (x1 - x3) * (u1 + u2 * (x1 + x3)) = 0 := by linear_combination h1 - h3
+  have f12 := (mul_eq_zero.mp e12).resolve_left (sub_ne_zero.mpr h12)
+  have f13 := (mul_eq_zero.mp e13).resolve_left (sub_ne_zero.mpr h13)
+  have : u2 * (x2 - x3) = 0 := by linear_combination f12 - f13
+  exact (mul_eq_zero.mp this).resolve_right (sub_ne_zero.mpr h23)
+
+/-- **when the parabola fit exists**: three sample points of non-zero weight at pairwise different signal
+strengths make the 3×3 normal-equation determinant positive (the moment matrix is positive definite:
+`uᵀMu = Σ w²·q_u(x)²` and a non-zero quadratic has at most two roots), so `lsq2` returns a parabola -/
+theorem c12_lsq2_defined (pts : List (ℝ × ℝ × ℝ)) (p q r : ℝ × ℝ × ℝ) (hp : p ∈ pts) (hq : q ∈ pts) (hr : r ∈ pts)
+    (hwp : p.2.2 ≠ 0) (hwq : q.2.2 ≠ 0) (hwr : r.2.2 ≠ 0) (hpq : p.1 ≠ q.1) (hpr : p.1 ≠ r.1) (hqr : q.1 ≠ r.1) :
+    ∃ a b c, lsq2 pts = .ok [a, b, c] := by
+  have hd2 := C12.det2_pos pts p q hp hq hwp hwq hpq
+  -- the cofactors of the last row of the moment matrix
+  set s0 := (momS pts).1 with hs0
+  set s1 := (momS pts).2.1 with hs1
+  set s2 := (momS pts).2.2.1 with hs2
+  set s3 := (momS pts).2.2.2.1 with hs3
+  set s4 := (momS pts).2.2.2.2 with hs4
+  -- polynomial u0 + u1 x + u2 x² with (u0,u1,u2) = adj(M)·e_{x²}
+  set u2 := s2 * s0 - s1 * s1 with hu2
+  set u1 := -(s3 * s0 - s1 * s2) with hu1
+  set u0 := s3 * s1 - s2 * s2 with hu0
+  have hu2pos : 0 < u2 := by simpa [det2, hu2] using hd2
+  have hQ := C12.quad_form u0 u1 u2 pts
+  have nn : ∀ t : ℝ × ℝ × ℝ, 0 ≤ t.2.2 * t.2.2 * ((u0 + u1 * t.1 + u2 * (t.1 * t.1)) * (u0 + u1 * t.1 + u2 * (t.1 * t.1))) :=
+    fun t => mul_nonneg (mul_self_nonneg _) (mul_self_nonneg _)
+  have hpos : 0 < pfSum (fun t => t.2.2 * t.2.2 *
+      ((u0 + u1 * t.1 + u2 * (t.1 * t.1)) * (u0 + u1 * t.1 + u2 * (t.1 * t.1)))) pts := by
+    by_contra hcon
+    have hz : ∀ t ∈ pts, t.2.2 ≠ 0 → u0 + u1 * t.1 + u2 * (t.1 * t.1) = 0 := by
+      intro t ht hw
+      by_contra hne
+      have := C12.pfSum_ge_mem _ nn pts t ht
+      have : 0 < t.2.2 * t.2.2 * ((u0 + u1 * t.1 + u2 * (t.1 * t.1)) * (u0 + u1 * t.1 + u2 * (t.1 * t.1))) :=
+        mul_pos (mul_self_pos.mpr hw) (mul_self_pos.mpr hne)
+      linarith
+    have := C12.quad_three_roots u0 u1 u2 p.1 q.1 r.1 hpq hpr hqr (hz p hp hwp) (hz q hq hwq) (hz r hr hwr)
+    exact (ne_of_gt hu2pos) this
+  have hdet : det3 s4 s3 s2 s3 s2 s1 s2 s1 s0 * u2 =
+      u0 * u0 * s0 + 2 * u0 * u1 * s1 + (u1 * u1 + 2 * u0 * u2) * s2 + 2 * u1 * u2 * s3 + u2 * u2 * s4 := by
+    simp only [det3, hu0, hu1, hu2]; ring
+  have hd3 : 0 < det3 s4 s3 s2 s3 s2 s1 s2 s1 s0 := by
+    rw [hQ, ← hdet] at hpos
+    exact pos_of_mul_pos_left hpos (le_of_lt hu2pos) |> fun h => h
+  unfold lsq2
+  simp only [← hs0, ← hs1, ← hs2, ← hs3, ← hs4]
+  rw [if_neg (fun hc => ne_of_gt hd3 ((polyIsZero_iff' _).mp hc))]
+  exact ⟨_, _, _, rfl⟩
+
+/-- hence the degree-2 fit of `polynomial_fit` **can be computed** for every sample of at least four points
+of equal-length arguments with three points of non-zero weight at pairwise different signal strengths -/
+theorem c12_polyfit_parabola_defined (xs ys ws : List ℝ) (hxy : xs.length = ys.length) (hwy : ws.length = ys.length)
+    (hn : 3 < xs.length) (p q r : ℝ × ℝ × ℝ) (hp : p ∈ pfPoints xs ys ws) (hq : q ∈ pfPoints xs ys ws)
+    (hr : r ∈ pfPoints xs ys ws) (hwp : p.2.2 ≠ 0) (hwq : q.2.2 ≠ 0) (hwr : r.2.2 ≠ 0)
+    (hpq : p.1 ≠ q.1) (hpr : p.1 ≠ r.1) (hqr : q.1 ≠ r.1) :
+    ∃ a b c, polyfitR7 (2 : ℤ) xs ys ws = .ok [a, b, c] := by
+  obtain ⟨a, b, c, hl⟩ := c12_lsq2_defined _ p q r hp hq hr hwp hwq hwr hpq hpr hqr
+  refine ⟨a, b, c, ?_⟩
+  have he : xs.isEmpty = false := by
+    cases xs with
+    | nil => simp at hn
+    | cons _ _ => rfl
+  have hn' : 3 < ys.length := hxy ▸ hn
+  simp [polyfitR7, he, hxy, hwy, hl, hn']
+
+example : ∃ a b c, polyfitR7 (2 : ℤ) [(0 : ℝ), 1, 2, 3] [0.1, 0.4, 0.5, 0.7] [2, 3, 1, 1] = .ok [a, b, c] :=
+  c12_polyfit_parabola_defined _ _ _ rfl rfl (by simp) (0, 0.1, 2) (1, 0.4, 3) (2, 0.5, 1)
+    (by simp [pfPoints]) (by simp [pfPoints]) (by simp [pfPoints])
+    (by norm_num) (by norm_num) (by norm_num) (by norm_num) (by norm_num) (by norm_num)
+
+end polyfit_r7_parabola
